@@ -75,10 +75,12 @@ Record state := mkstate {
   libs : nat -> libstate;
   bad : bool;                (* ghost: an extern "Python" function of l ran in a thread that is not the
                                 initializer of l although l's initialization had not finished *)
-  zeros : nat -> nat }.      (* ghost: per library, calls that returned the zeroed result *)
+  zeros : nat -> nat;        (* ghost: per library, calls that returned the zeroed result *)
+  gil : option nat }.        (* a thread that left _cffi_initialize_python WITHOUT PyGILState_Release: it
+                                keeps the GIL although it no longer runs Python, for ever *)
 
 Definition init (n : nat) : state :=
-  mkstate n (fun _ => []) None false 0 (fun _ => lib0) false (fun _ => 0).
+  mkstate n (fun _ => []) None false 0 (fun _ => lib0) false (fun _ => 0) None.
 
 Inductive choice := CCall (l : nat) | COk | CFail.
 
@@ -86,18 +88,18 @@ Definition updf {A} (f : nat -> A) (i : nat) (v : A) : nat -> A :=
   fun j => if Nat.eqb j i then v else f j.
 
 Definition set_stack (s : state) (t : nat) (st : list frame) : state :=
-  mkstate (nthr s) (updf (stacks s) t st) (spin s) (pyinit s) (pycount s) (libs s) (bad s) (zeros s).
+  mkstate (nthr s) (updf (stacks s) t st) (spin s) (pyinit s) (pycount s) (libs s) (bad s) (zeros s) (gil s).
 Definition set_lib (s : state) (l : nat) (x : libstate) : state :=
-  mkstate (nthr s) (stacks s) (spin s) (pyinit s) (pycount s) (updf (libs s) l x) (bad s) (zeros s).
+  mkstate (nthr s) (stacks s) (spin s) (pyinit s) (pycount s) (updf (libs s) l x) (bad s) (zeros s) (gil s).
 Definition set_spin (s : state) (v : option nat) : state :=
-  mkstate (nthr s) (stacks s) v (pyinit s) (pycount s) (libs s) (bad s) (zeros s).
+  mkstate (nthr s) (stacks s) v (pyinit s) (pycount s) (libs s) (bad s) (zeros s) (gil s).
 Definition set_py (s : state) : state :=
-  mkstate (nthr s) (stacks s) (spin s) true (S (pycount s)) (libs s) (bad s) (zeros s).
+  mkstate (nthr s) (stacks s) (spin s) true (S (pycount s)) (libs s) (bad s) (zeros s) (gil s).
 Definition set_bad (s : state) : state :=
-  mkstate (nthr s) (stacks s) (spin s) (pyinit s) (pycount s) (libs s) true (zeros s).
+  mkstate (nthr s) (stacks s) (spin s) (pyinit s) (pycount s) (libs s) true (zeros s) (gil s).
 Definition add_zero (s : state) (l : nat) : state :=
   mkstate (nthr s) (stacks s) (spin s) (pyinit s) (pycount s) (libs s) (bad s)
-          (updf (zeros s) l (S (zeros s l))).
+          (updf (zeros s) l (S (zeros s l))) (gil s).
 
 Definition holds_lib (l : nat) (st : list frame) : bool :=
   existsb (fun f => Nat.eqb (fst f) l && holding (snd f)) st.
@@ -128,7 +130,7 @@ Definition lswitch (x : libstate) := mklib (cas x) (ready x) (called x) (org x) 
      true   inside "if (!called) { ... if (_cffi_initialize_python() == 0) { HERE } ... }"   (the code as it is)
      false  after that block, under "if (_cffi_call_python_org != NULL)", before the mutex is released
    The position is read from the source on every run (C28/Gen.v, gen_switch_in_success). *)
-Definition step_gen (sw : bool) (s : state) (tc : nat * choice) : state :=
+Definition core (sw : bool) (s : state) (tc : nat * choice) : state :=
   let (t, c) := tc in
   if negb (t <? nthr s) then s else
   match stacks s t with
@@ -176,6 +178,41 @@ Definition step_gen (sw : bool) (s : state) (tc : nat * choice) : state :=
           end
       end
   end.
+
+(* The GIL.  A thread that runs Python (init code, extern function) holds the GIL but yields it
+   regularly and around every call into C, so it never blocks others for good (fair GIL: runtime
+   hypothesis).  What can block for good is a thread that RETURNS from _cffi_initialize_python
+   without PyGILState_Release: it is back in C code and never yields.  [gen_init_exits] = whether
+   the success exit resp. the error exit of _cffi_initialize_python passes PyGILState_Release
+   (regenerated from the function's return paths, C28/Gen.v).  PyGILState_Ensure is executed on
+   entry of _cffi_initialize_python (PInitStart) and of cffi_call_python (entering PInPy); it
+   blocks while another thread keeps the GIL in that way. *)
+Definition set_gil (s : state) (v : option nat) : state :=
+  mkstate (nthr s) (stacks s) (spin s) (pyinit s) (pycount s) (libs s) (bad s) (zeros s) v.
+
+Definition needs_gil (s : state) (t : nat) : bool :=
+  match stacks s t with
+  | (l, PInitStart) :: _ => true
+  | (l, PCall) :: _ => switched (libs s l)
+  | (l, PRet) :: _ => org (libs s l)
+  | _ => false
+  end.
+
+Definition gil_blocked (s : state) (t : nat) : bool :=
+  match gil s with Some u => negb (Nat.eqb u t) && needs_gil s t | None => false end.
+
+Definition keeps_gil (s : state) (t : nat) : bool :=
+  (t <? nthr s) &&
+  match stacks s t with
+  | (_, PInitOk) :: _ => negb (fst gen_init_exits)
+  | (_, PInitFail) :: _ => negb (snd gen_init_exits)
+  | _ => false
+  end.
+
+Definition step_gen (sw : bool) (s : state) (tc : nat * choice) : state :=
+  if gil_blocked s (fst tc) then s
+  else let s' := core sw s tc in
+       if keeps_gil s (fst tc) then set_gil s' (Some (fst tc)) else s'.
 
 Definition step := step_gen gen_switch_in_success.
 
